@@ -68,6 +68,15 @@ func RuleBCD(r *Report, p *Program) {
 				continue
 			}
 			if added == nil {
+				// the encoder may build its result without a read-modify-write of the output byte: take the byte
+				// it returns for this one symbol
+				if res := pa.Results[0]; res.Op == "ptr" && res.Cell != nil && !res.Cell.Sym && res.Cell.Val != nil && res.Cell.Val.Op == "sref" {
+					if els := srefElems(res.Cell.Val); len(els) == 1 {
+						added = els[0]
+					}
+				}
+			}
+			if added == nil {
 				bad = "no nibble is merged into the output for an accepted symbol"
 				continue
 			}
@@ -125,6 +134,9 @@ func RuleBCD(r *Report, p *Program) {
 			if e.Kind == "call" && (strings.HasSuffix(e.Name, ".WriteRune") || strings.HasSuffix(e.Name, ".WriteByte")) && len(e.Args) == 2 {
 				writes = append(writes, e.Args[1])
 			}
+		}
+		if len(writes) == 0 && len(pa.Results) > 0 && pa.Results[0].Op == "strv" {
+			writes = pa.Results[0].Args // the text is returned as a whole instead of being written piecewise
 		}
 		for _, v := range valuesOf(reg) {
 			covered[v] = true
